@@ -555,6 +555,28 @@ pub fn run(tier: Tier) -> Run {
             .collect();
         run.add_all(res.into_iter().flatten());
         run.outcome("independence_pairs", (picks.len() * picks.len()) as u64);
+        // dense large modules (K declarations %1..%K, ids dense below the bound, more words than ids): loaded and
+        // assembled back word for word
+        let ks: Vec<u32> = if tier == Tier::Thorough { vec![65_535, 65_536, 70_000, 100_001, 131_072, 300_000, 1_100_000] } else { vec![65_535, 65_536, 100_001, 131_072, 300_000] };
+        let res: Vec<Option<Viol>> = ks
+            .par_iter()
+            .map(|&k| {
+                let bytes = crate::model::words_to_bytes(&crate::universe::dense_module(k));
+                let (v, o, _) = raw_check("dense-large-module", &format!("dense:{}", k), &bytes);
+                match v {
+                    Some(mut v) => {
+                        v.replay = json!({"kind": "c01-dense", "types": k});
+                        Some(v)
+                    }
+                    None if o == "not-loadable" => Some(viol("C01:dense:not-loaded", format!("a well-formed module of {} dense type declarations is not loaded", k), json!({"kind": "c01-dense", "types": k}))),
+                    None => None,
+                }
+            })
+            .collect();
+        run.outcome("dense_large_modules", ks.len() as u64);
+        for v in res.into_iter().flatten() {
+            run.add(v);
+        }
     }
     // U-seq: streamed, parallel over the first two symbols
     let l = tier.pick(5, 6);
